@@ -58,6 +58,17 @@ def run():
     assert m.regs["ebx"] == 0x80000000
     for bad in ("31c0", "c3", "890424"):
         _must_fail("ia32", bad, symaddr={}, ext={})
+    # status flags through AH/AL: lahf; seto al; push eax | (flags destroyed) | pop eax; add al,0x7f; sahf
+    for fl in (0x0F1A6D41, 0x0F1A6500, 0x0F1A65D5, 0x0F1A6D00):
+        m = make("ia32", bytes.fromhex("9f 0f90c0 50 83ec04 83c404 58 047f 9e"), relocs={}, symaddr={}, ext={})
+        init = sentinels(m)
+        init[m.SP] = 0x7FFD8010
+        m.reset(init, fl)
+        m.run()
+        assert (m.flags ^ fl) & 0x8D5 == 0, hex(m.flags)  # OF SF ZF AF PF CF are back
+        assert m.regs["eax"] != init["eax"]  # ...and eax paid for it
+    m, i = _run("ia32", "9f", 0x7000, symaddr={}, ext={})
+    assert m.regs["eax"] >> 8 & 0xFF == (0xF1A6 & 0xD5) | 2
     # ---- ARM64
     m, i = _run("arm64", "e007bfa9 e00f1ff8 1f2003d5 e00741f8 e007c1a8", 0x7FF0, marker=lambda mm: mm.regs.update(x0=1, x1=2))
     assert m.regs["x0"] == i["x0"] and m.regs["x1"] == i["x1"] and m.regs["sp"] == 0x7FF0
